@@ -5,6 +5,9 @@ import json, subprocess
 HOOK_COMMITS = []  # filled in as hook commits are made in /repo
 
 CHECKS = {
+ "C14": dict(cat="exploration", technique="runtime metamorphic monitor: multisets of canonical rows of variants of one query (renamed bindings, chanSize, GOMAXPROCS, repeated runs, data partitioned over FROM graphs, clause permutations, data supersets, total ORDER BY repeated 20x) must agree; race detector on the parallel variants",
+   text="Sampled: ~1 k (quick) to ~10 k (thorough) base queries x 12-35 variants each, over sparse and dense data; a race-instrumented sample of the same workload.",
+   note="No reference model involved; equality of rows is accessor-based canonical equality; the sequence check only applies when every output column holds one kind of value.", ref="DESIGN.md §5 C14"),
  "C13": dict(cat="exploration", technique="runtime metamorphic monitor: rows of the query with HAVING compared with a typed reference filter of the rows the real engine returns without it",
    text="Sampled: 3.8 k (quick) to 48 k (thorough) base-query x expression pairs; expressions of every accepted form up to nesting 4 over operands of every kind, including constants of another kind than the column and aggregate outputs after GROUP BY.",
    note="Order comparisons are generated for numbers, times and text only; errors are accepted only for kind-mismatched comparisons; forms the expression builder rejects at parse time are counted, not judged.", ref="DESIGN.md §5 C13"),
